@@ -4,7 +4,7 @@
 From Coq Require Import Permutation.
 From CR Require Import Base Atomic Machine LinksFacts HeapFacts TraceFacts TraceTotal Local StackBound
   Termination Perm StdRc StdRefine Tokens InvDef InvLemmas ActBase ActHandles ActAdopt ActMove ActConsume
-  StepFrames StepPanic Purge GroupOps DropDec Group DropLast StepInv RunInv Consequences PidInv TablesFrame Recorded Common.
+  StepFrames StepPanic Purge GroupOps DropDec Group DropLast StepInv RunInv Consequences PidInv TablesFrame Recorded InvDec Common.
 Local Open Scope N_scope.
 
 (** Full statement. For every history (any length, any graph shape, any choice
@@ -120,3 +120,18 @@ Print Assumptions C01_idiomatic_programs_are_safe.
 Theorem C01_nonvacuous : hist_ok ex_fuel init_state ex_history = true.
 Proof. exact ex_history_ok. Qed.
 Print Assumptions C01_nonvacuous.
+
+(** The invariant and the precondition are DECIDABLE, and the executable
+    checkers that the correspondence run evaluates on every configuration of
+    every explored history ([invb], [discb], extracted with the model) decide
+    them exactly: a non-zero code is a proof of [~ Inv], a zero code a proof of
+    [Inv] (Inv/InvDec.v). *)
+Theorem C01_invariant_checker_is_exact :
+  forall s k, invb s k = 0%nat <-> Inv s k.
+Proof. exact invb_iff. Qed.
+Print Assumptions C01_invariant_checker_is_exact.
+
+Theorem C01_precondition_checker_is_exact :
+  forall h, heap_wf h -> (discb h = true <-> disc h).
+Proof. exact discb_iff. Qed.
+Print Assumptions C01_precondition_checker_is_exact.
